@@ -486,6 +486,16 @@ def _pill_caused(W, m, idx):
             return False
     if last is not None and last.k == "<" and last.op in ("stop", "dereg", "start", "ctx_deregister", "reg"):
         return False
+    # a start carried out by the loop itself (evaluation pass) and refused by the start callback stops the module as well:
+    # the last callback boundary of m before the observation (its stop callback aside) is then the refusing return
+    for j in range(idx - 1, -1, -1):
+        r = W.recs[j]
+        if r.k in ("B", "E") and r.slot == m:
+            if r.kind == "stop":
+                continue
+            if r.k == "E" and r.kind == "start" and r.ret == 0:
+                return False
+            break
     return True
 
 
